@@ -777,6 +777,135 @@ theorem C12_table_slots_refuted :
     (Tab.step { kty := .int, vty := .int, items := [], nslots := 0 } (.set (.str ['x']) (.int 1))) =
       ({ kty := .int, vty := .int, items := [], nslots := 1 }, .raised .ValueError) := by decide
 
+/-- **C12, Table: a refused operation leaves the slot count and the slot array untouched** — for every table that has slots, every
+    operation (outside `assign`, finding KF-C12-assign-clears) and every argument: when the operation raises, the table is the very same
+    value (`nslots` included) and the operation has not replaced the slot array (`Tab.moves`: no `Table_Rehash`, no `Table_Clear`), so
+    the iteration order and every element reference handed out by an earlier `get` / iteration are what they were.  `Tab.moves`
+    mirrors where `Table_Set` / `Table_Rem` / `Table_Resize` call `Table_Rehash`; the harness prints it (`mv=`) from `t->data` before and
+    after every call, and its direct oracle compares iteration order and element addresses around every refused call. -/
+theorem C12_refused_table_keeps_slot_array (t t' : Tab) (op : Op) (e : Exc)
+    (hk : t.kf op = false) (h0 : t.nslots ≠ 0) (h : t.step op = (t', .raised e)) :
+    t' = t ∧ t'.nslots = t.nslots ∧ t.moves op = false := by
+  have hat := C12_failure_atomic_table t t' op e hk h
+  refine ⟨hat.2.2.2.1 h0, by rw [hat.2.2.2.1 h0], ?_⟩
+  cases op with
+  | set k v =>
+    simp only [Tab.step, Tab.set] at h
+    simp only [Tab.moves, h0, if_false]
+    cases hc : castTo t.kty k with
+    | ok k' =>
+      cases hd : castTo t.vty v with
+      | ok v' => simp [hc, hd] at h
+      | raised e' => rfl
+      | ub => rfl
+    | raised e' => rfl
+    | ub => rfl
+  | rem k =>
+    simp only [Tab.step, Tab.rem] at h
+    simp only [Tab.moves]
+    cases hc : castTo t.kty k with
+    | ok k' =>
+      simp only [hc, h0, if_false] at h ⊢
+      cases hl : t.items.lookup k' with
+      | some w => simp [hl] at h
+      | none => rfl
+    | raised e' => rfl
+    | ub => rfl
+  | resize n =>
+    simp only [Tab.step, Tab.resize] at h
+    simp only [Tab.moves]
+    by_cases hn : n = 0
+    · simp [hn] at h
+    · by_cases hl : n < t.items.length
+      · simp [hn, hl]
+      · simp [hn, hl] at h
+  | assign v => simp [Tab.kf] at hk
+  | _ => rfl
+
+/-- **C12, `Table_Set` with refused arguments**, stated on the arguments: for every well-formed table that has slots and every key /
+    value pair the specification refuses (a key that is not of the key type, a value that is not of the value type, NULL), `set`
+    raises exactly the documented exception, returns the very same table — slot count included — and does not replace the slot
+    array.  In particular at the growth thresholds of `Table_Ideal_Size` (4 items in 5 slots, 9 in 11, 20 in 23, 47 in 53, …: the
+    examples below), where an accepted `set` of a new key does rehash. -/
+theorem C12_refused_table_set_keeps_slot_array (t : Tab) (hw : t.wf) (h0 : t.nslots ≠ 0) (k v : Val) (e : Exc)
+    (hs : t.spec (.set k v) = some e) :
+    t.set k v = (t, .raised e) ∧ t.moves (.set k v) = false := by
+  have hx := C12_raises_exactly_table t (.set k v) hw rfl
+  rw [hs] at hx
+  have hr : (t.step (.set k v)).2 = .raised e := by
+    cases hq : (t.step (.set k v)).2 with
+    | ok r => simp [hq, R.exc?] at hx
+    | raised e' => simp [hq, R.exc?] at hx; rw [hx]
+    | ub => simp [hq, R.exc?] at hx
+  have hstep : t.step (.set k v) = ((t.step (.set k v)).1, .raised e) := by rw [← hr]
+  have := C12_refused_table_keeps_slot_array t _ (.set k v) e rfl h0 hstep
+  refine ⟨?_, this.2.2⟩
+  show t.step (.set k v) = (t, .raised e)
+  rw [hstep, this.1]
+
+/-- the slot count changes only when the slot array is replaced (every operation but `assign`) -/
+theorem C12_table_slots_change_only_by_move (t : Tab) (op : Op) (hk : t.kf op = false) (hm : t.moves op = false) :
+    (t.step op).1.nslots = t.nslots := by
+  cases op with
+  | set k v =>
+    simp only [Tab.moves] at hm
+    by_cases h0 : t.nslots = 0
+    · simp [h0] at hm
+    · simp only [h0, if_false] at hm
+      simp only [Tab.step, Tab.set, h0, if_false]
+      cases hc : castTo t.kty k with
+      | ok k' =>
+        cases hd : castTo t.vty v with
+        | ok v' => simp only [hc, hd, decide_eq_false_iff_not] at hm; simp [hm]
+        | raised e' => rfl
+        | ub => rfl
+      | raised e' => rfl
+      | ub => rfl
+  | rem k =>
+    simp only [Tab.moves] at hm
+    simp only [Tab.step, Tab.rem]
+    cases hc : castTo t.kty k with
+    | ok k' =>
+      simp only [hc] at hm ⊢
+      by_cases h0 : t.nslots = 0
+      · simp [h0]
+      · simp only [h0, if_false] at hm ⊢
+        cases hl : t.items.lookup k' with
+        | some w => simp only [hl, decide_eq_false_iff_not] at hm; simp [hm]
+        | none => rfl
+    | raised e' => rfl
+    | ub => rfl
+  | resize n =>
+    simp only [Tab.moves] at hm
+    simp only [Tab.step, Tab.resize]
+    by_cases hn : n = 0
+    · simp only [hn, if_true, decide_eq_false_iff_not] at hm
+      have hz : t.nslots = 0 := Decidable.byContradiction hm
+      simp [hn, hz]
+    · by_cases hl : n < t.items.length
+      · simp [hn, hl]
+      · simp [hn, hl] at hm
+  | assign v => simp [Tab.kf] at hk
+  | get k => simp only [Tab.step, Tab.get]; (repeat' split) <;> rfl
+  | mem k => simp only [Tab.step, Tab.mem]; (repeat' split) <;> rfl
+  | print pos fmt args =>
+    cases fmt with
+    | nil => rfl
+    | cons it rest => cases it <;> rfl
+  | _ => rfl
+
+/-- at a growth threshold (4 items in 5 slots): a refused `set` — wrong-typed key, wrong-typed value, NULL key — keeps the 5 slots
+    and the slot array; the accepted `set` of a fifth key replaces it (11 slots); the hypotheses of the theorems above hold there -/
+example :
+    let t : Tab := { kty := .int, vty := .int, items := [(.int 1, .int 10), (.int 2, .int 20), (.int 3, .int 30), (.int 4, .int 40)], nslots := 5 }
+    t.set (.str ['x']) (.int 5) = (t, .raised .ValueError) ∧ t.moves (.set (.str ['x']) (.int 5)) = false ∧
+    t.set (.int 9) (.str ['x']) = (t, .raised .ValueError) ∧ t.moves (.set (.int 9) (.str ['x'])) = false ∧
+    t.set .null (.int 5) = (t, .raised .ValueError) ∧ t.moves (.set .null (.int 5)) = false ∧
+    (t.set (.int 9) (.int 90)).1.nslots = 11 ∧ t.moves (.set (.int 9) (.int 90)) = true ∧
+    t.spec (.set (.str ['x']) (.int 5)) = some .ValueError ∧ idealSize 4 = 5 ∧ idealSize 5 = 11 := by decide
+/-- the slot-less table is the one exception, as the model has it: the first block is allocated before the arguments are cast -/
+example : (Tab.moves { kty := .int, vty := .int, items := [], nslots := 0 } (.set (.str ['x']) (.int 1))) = true := by decide
+
 example : (Tab.step { kty := .int, vty := .str, items := [(.int 1, .str ['a'])], nslots := 5 } (.get (.int 3))).2 = .raised .KeyError := by decide
 example : (Tab.step { kty := .int, vty := .str, items := [(.int 1, .str ['a'])], nslots := 5 } (.set (.int 3) (.int 4))).2 = .raised .ValueError := by decide
 example : (Tab.step { kty := .int, vty := .str, items := [(.int 1, .str ['a']), (.int 2, .str ['b'])], nslots := 5 } (.resize 1)).2 = .raised .FormatError := by decide
@@ -2139,6 +2268,18 @@ theorem C12_failure_atomic_nested (σ σ' : Store) (id : Nat) (op : NOp) (e : Ex
   model" — every raising branch of the model returns its argument — so their content is that the model has the order of the C
   statements.  The theorems of this section tie that order to the source text: a changed guard, a moved mutation, a dropped
   `throw` or a new branch in any mirrored function makes one of them fail to check. -/
+
+/-- **`Table_Set` validates its arguments before it replaces the slot array** (read from the generated token lists; placed in front of
+    `C12_source_profile` so that a change of this order is named by its own obligation): on a table that has slots no token of
+    `Table_Set` in front of the call of `Table_Set_Move` writes to the table, and `Table_Set_Move` casts the key and the value before its
+    first write.  This is what `Tab.set` / `Tab.moves` assume when they answer a refused `set` with the untouched table
+    (`C12_refused_table_keeps_slot_array`). -/
+theorem C12_table_set_validates_before_growth : tableSetValidatesFirst CelloGen.Fail.profile = true := by decide
+
+/-- the order the obligation above refuses: `Table_Set` making room first (`Table_Ideal_Size(nitems + 1) > nslots` → `Table_Rehash`) and
+    only then calling `Table_Set_Move`, whose casts can still refuse the arguments — the exception is the documented one, but the
+    table has been rehashed into a new block: other slot count, other iteration order, every earlier element reference dangling -/
+theorem C12_table_set_growth_first_refuted : tableSetValidatesFirst (profileGrowFirst CelloGen.Fail.profile) = false := by decide
 
 /-- **the mirrored functions are the ones the model was written against**: for each of the 64 functions, the sequence of guards
     (`if` conditions), throw sites, validating calls, element assignments and mutations, with its block structure
